@@ -30,5 +30,15 @@ CHECKS = {
   "note": "Trusted: byte comparison of trees (command-line header ignored). Sequences keep the number of files per experiment uniform, because a mixed sequence switches on file-name grouping for every experiment by design (extra grouped tables for single-file experiments).",
   "technique": "differential runtime monitoring (joint vs stand-alone executions) + carried-state snapshots at hooked process_sample",
  },
+ "C17": {
+  "text": "Every transcript, gene and exon id of both output GTFs of CLI runs is judged (uniqueness per file, reference ids printed only with reference coordinates, exon_id a function of (chr,start,end,strand) and injective across chromosomes and files, reference exon ids preserved) on worlds whose references already contain IsoQuant-style transcript/gene/exon ids below and above the numbers a fresh run allocates, plus annotation-free runs; the id monitor logs every FeatureIdStorage.get_id call and the function law is checked on the log. Sampled worlds.",
+  "note": "Trusted: GTF parser in vlib/parse.py. A reference id printed with non-reference coordinates is interpreted as a novel/reference collision.",
+  "technique": "offline checker over output files + hooked id-allocation log (function/injectivity law)",
+ },
+ "C18": {
+  "text": "Every logged check_sites_are_canonical query, every Canonical= value of read_assignments.tsv and every Canonical attribute of the output GTFs is recomputed from the FASTA for the reported strand; worlds contain introns canonical on +, on -, on neither (all three documented pairs), loci where a + and a - isoform share an intron exactly in both processing orders, reads with introns outside the gene region, and hidden isoforms whose novel models' strands are compared with splice-site / annotated-intron / polyA evidence; all --report_canonical levels. Sampled worlds.",
+  "note": "Trusted: documented canonical pairs; records with strand '.' are not judged; a novel model strand is flagged only when it contradicts every available kind of evidence.",
+  "technique": "hooked query log + offline recomputation from the reference sequence (reference-model oracle)",
+ },
 }
 NOT_APPLICABLE = {}
